@@ -160,7 +160,7 @@ fn configs(bound: u32) -> Vec<Config> {
     let v = std::cell::RefCell::new(Vec::new());
     mcx::explore(bound, |c| {
         let cfg = Config {
-            feats: c.dev(5) as u8,
+            feats: [0u8, 1, 2, 3, 4, 5, 7, 8][c.dev(8)],
             lang: c.dev(3) as u8,
             kerning: c.dev(2) == 0,
             rtl: c.dev(2) == 1,
@@ -179,6 +179,10 @@ fn features(k: u8) -> Features {
         2 => Features::Mask(FeatureMask::empty()),
         3 => Features::Custom(vec![]),
         6 => Features::Mask(FeatureMask::default() | FeatureMask::FRAC),
+        // positional and composition features by tag: gsub_apply_custom treats `fina` specially (last glyph only), and
+        // the lookups of the other features can shorten or lengthen the run before it is reached
+        7 => Features::Custom([tag::CCMP, tag::FINA, tag::INIT, tag::MEDI, tag::ISOL, tag::RLIG, tag::LIGA, tag::CALT].iter().map(|t| FeatureInfo { feature_tag: *t, alternate: None }).collect()),
+        8 => Features::Custom([tag::FINA, tag::CCMP].iter().map(|t| FeatureInfo { feature_tag: *t, alternate: None }).collect()),
         4 => Features::Custom([tag::LIGA, tag::KERN, tag::CCMP, tag::MARK, tag::RLIG].iter().map(|t| FeatureInfo { feature_tag: *t, alternate: None }).collect()),
         _ => Features::Custom([otmodel::tag(b"test"), tag::LIGA, tag::KERN, tag::MARK, tag::MKMK, tag::CURS].iter().map(|t| FeatureInfo { feature_tag: *t, alternate: Some(1) }).collect()),
     }
@@ -432,8 +436,15 @@ pub fn layout_seeds(tier: &str) -> Vec<(Seed, PlanOpts)> {
     let mut out = Vec::new();
     let mut files: Vec<String> = std::fs::read_dir("/repo/tests/aots").map(|rd| rd.filter_map(|e| e.ok()).map(|e| e.path().to_string_lossy().to_string()).filter(|p| p.ends_with(".otf")).collect()).unwrap_or_default();
     files.sort();
-    for (k, f) in files.iter().enumerate() {
-        if tier == "quick" && k % 12 != 0 {
+    // quick: the first font of every family (lookup type / subtable format: gpos1 ... gpos9, gsub1 ... gsub7,
+    // gpos_chaining1, gsub_context3, lookupflag, classdef1 ...); thorough: all fonts
+    let mut families_seen: std::collections::BTreeSet<String> = std::collections::BTreeSet::new();
+    for f in files.iter() {
+        let base = f.rsplit('/').next().unwrap_or("");
+        let mut toks = base.trim_end_matches(".otf").split('_');
+        let t0 = toks.next().unwrap_or("");
+        let family = if t0 == "gpos" || t0 == "gsub" { format!("{}_{}", t0, toks.next().unwrap_or("")) } else { t0.to_string() };
+        if tier == "quick" && !families_seen.insert(family) {
             continue;
         }
         let bytes = match std::fs::read(f) {
